@@ -45,6 +45,8 @@ def run(ctx):
     cases.append({"kind": "precreate2", "seed": 1, "nlookupd": 2, "fails": []})
     for i in range(4 if ctx.quick else 16):
         cases.append({"kind": "precreate3", "seed": ctx.seed * 10 + i, "nlookupd": 1, "fails": []})
+    for i in range(3 if ctx.quick else 12):
+        cases.append({"kind": "reconfig", "seed": ctx.seed * 10 + i, "nlookupd": 2, "fails": []})
     cases.append({"kind": "badident", "seed": 1, "nlookupd": 1, "fails": []})
     cases.append({"kind": "badident", "seed": 2, "nlookupd": 2, "fails": []})
     cases.append({"kind": "churnping", "seed": 1, "nlookupd": 1, "fails": []})
